@@ -1,0 +1,14 @@
+//go:build verif
+
+package filesys
+
+// VerifHook, when non-nil, is called at instrumented points of the library.
+// It exists only in verification builds (build tag "verif") and lets an
+// external harness observe and gate critical sections and system-call steps.
+var VerifHook func(point, dir, name string, fd int)
+
+func verifHook(point, dir, name string, fd int) {
+	if h := VerifHook; h != nil {
+		h(point, dir, name, fd)
+	}
+}
